@@ -201,7 +201,11 @@ def write_evidence(mod, ctx, build, aud, proof_ok, nviol, known_hits, infra=None
         "obligations": max(len(thms), 1),
         "discharged": discharged,
         "checker_cmd": f"cd lean && lake build " + " ".join(f"AgpTpf.Properties.{m.stem}" for m in common.prop_modules(ctx.prop)) + f" && lake env lean .lake/audit_{ctx.prop}.lean   (# print axioms of every theorem)",
-        "trusted_base": ["Lean 4.33.0 kernel", "axioms used: " + (", ".join(axioms_used) or "none")] + list(getattr(mod, "TRUSTED", [])),
+        "trusted_base": ["Lean 4.33.0 kernel", "axioms used: " + (", ".join(axioms_used) or "none")] + list(getattr(mod, "TRUSTED", []))
+                        + (["T1c: the Python-to-Lean translator harness/translate_imp.py (subset, object table, arenas, normal forms, guards; DESIGN 12.12-12.14) and the "
+                            "run-time semantics Model/PyRt.lean, PyRtHeap.lean, PyRtPhase2.lean, PyRtText.lean — the theorems named *_is_source / *_refines are about "
+                            "the functions it generates from the current source (Gen/Imp*.lean, regenerated on every run)"]
+                           if any("Imp" in m.stem for m in common.prop_modules(ctx.prop)) else []),
         "theorems": thms,
         "evaluations": out.evaluations,
         "distinct_nontrivial": len(out.nontrivial),
